@@ -8,8 +8,8 @@ REPO = os.environ.get('VERIF_REPO', '/repo')
 CRATE = os.path.join(REPO, 'falcon-rust')
 BUILD = os.environ.get('VERIF_BUILD', '/verif/.build')
 # trials against a scratch tree must not overwrite the evidence / counterexamples of /repo
-EVID = '/verif/evidence' if REPO == '/repo' else os.path.join(BUILD, 'evidence')
-CEX = '/verif/counterexamples' if REPO == '/repo' else os.path.join(BUILD, 'counterexamples')
+EVID = os.environ.get('VERIF_EVID') or ('/verif/evidence' if REPO == '/repo' else os.path.join(BUILD, 'evidence'))
+CEX = os.environ.get('VERIF_CEX') or ('/verif/counterexamples' if REPO == '/repo' else os.path.join(BUILD, 'counterexamples'))
 GUARD = 'aszepieniec_falcon_rust_verif'
 NCPU = min(16, os.cpu_count() or 4)
 
